@@ -82,7 +82,7 @@ CHECKS = {
   "note": COMMON_NOTE + "Modelled not verified: Go channel/sync.Map/atomic semantics; subscribers register before the first pause; "
           "flag test and Range snapshot of Resume are one atomic step; the harness's subscriber goroutines copy the pause case of the "
           "stage workers (shape read from the source), the real workers run in C03's end-to-end scenarios. Termination of internal "
-          "steps (that quiescence is always reached) is argued by a decreasing measure in DESIGN.md, not yet proved in Lean.",
+          "steps is proved too (Proofs/PauseTerm.lean: a measure every internal step decreases; c14_every_call_returns).",
  },
  "C09": {
   "text": "Byte-level theorems for all byte strings / pair lists: QueryUnescape(QueryEscape b) = b; parsing the re-encoded query "
